@@ -1,4 +1,4 @@
-\* documents X06-no-interface-modules-left-running at design level: EXPECTED TO FAIL CleanEnd
+\* documents X06-no-interface-modules-left-running (repaired by 98cfad6 = FixNoIf) at design level: without it EXPECTED TO FAIL CleanEnd
 SPECIFICATION Spec
 CONSTANTS
   NIf = 2
